@@ -28,6 +28,9 @@ func (c *Ctx) Root() *Module {
 		c.root = loadModule("root", c.Repo, c.goos, c.arch, 23)
 		c.R.Analysed["root_packages"] = len(c.root.Pkgs)
 		c.R.Analysed["root_functions"] = len(c.root.srcFns)
+		if c.root.Inline.Sites > 0 || c.root.Inline.Note != "" {
+			c.R.Analysed["root_new_helpers_inlined"] = c.root.Inline
+		}
 	}
 	return c.root
 }
@@ -38,6 +41,9 @@ func (c *Ctx) Godev() *Module {
 		c.godev = loadModule("godev", filepath.Join(c.Repo, "godev"), c.goos, c.arch, 9)
 		c.R.Analysed["godev_packages"] = len(c.godev.Pkgs)
 		c.R.Analysed["godev_functions"] = len(c.godev.srcFns)
+		if c.godev.Inline.Sites > 0 || c.godev.Inline.Note != "" {
+			c.R.Analysed["godev_new_helpers_inlined"] = c.godev.Inline
+		}
 	}
 	return c.godev
 }
@@ -66,7 +72,12 @@ func main() {
 	evidence := flag.String("evidence", "", "evidence file to write")
 	verif := flag.String("verif", "/verif", "verif dir (KNOWN_FINDINGS.jsonl)")
 	list := flag.Bool("list", false, "list implemented properties")
+	dump := flag.Bool("dump-funcs", false, "print the function list of -repo (reference for baseline_funcs.txt)")
 	flag.Parse()
+	if *dump {
+		dumpFuncs(*repo)
+		return
+	}
 	if *list {
 		var ids []string
 		for id := range props {
